@@ -222,6 +222,17 @@ fn main() {
                         for i in &items {
                             ranges.push((M1.0, i.source_range.start().into(), i.source_range.end().into()));
                         }
+                        // accepting an item puts a name into the buffer: it must be the name that was offered (the one that is in
+                        // scope here), as one identifier
+                        for i in items.iter().filter(|i| matches!(i.kind, ide::CompletionItemKind::Function | ide::CompletionItemKind::Param | ide::CompletionItemKind::Variant | ide::CompletionItemKind::Module)) {
+                            let inserted: String = i.replace.chars().take_while(|c| c.is_alphanumeric() || *c == '_').collect();
+                            if inserted != i.label.as_str() {
+                                local.push(json!({"kind": "mismatch", "prop": "C18",
+                                    "features": {"what": "accepting an item inserts another name than the one offered", "item_kind": format!("{:?}", i.kind), "unqalias": has_unqalias(case)},
+                                    "detail": {"case": case, "text": prog.text, "token": {"idx": t.idx, "text": t.t, "offset": t.end}, "label": i.label.as_str(), "replace": i.replace.as_str()}}));
+                                break;
+                            }
+                        }
                         // built-in constructors are always in scope (and not the specification's business - unless the module
                         // declares a constructor with such a name itself: then the name is expected, once)
                         got.retain(|l| !["Ok", "Error", "True", "False", "Nil"].contains(&l.as_str()) || t.vis.contains(l));
